@@ -206,7 +206,7 @@ def run_jobs(jobs, table):
                             first = next(it)
                             next(it)
                         finally:
-                            it.proxy = None     # no close_stream traffic from the iterator's finaliser (it could run in any thread)
+                            util.detach_iterator(it)     # no close_stream traffic from the iterator's finaliser (it could run in any thread)
                 except (S.Hang, S.SchedAbort):
                     raise
                 except BaseException as x:     # noqa
